@@ -358,22 +358,26 @@ qp_header(const char *buf, const off_t len, cstring *boundary, int *multipart, c
 				static const char *content_tr_enc = "ontent-Transfer-Encoding:";
 				const char *cr = buf + off;
 
-				if ((rest >= (off_t)strlen(content_type)) &&
+				if ((rest > (off_t)strlen(content_type)) &&
 						!strncasecmp(cr + 1, content_type, strlen(content_type))) {
 					ctype.len = getfieldlen(cr, len - off);
 					if (ctype.len) {
 						ctype.s = cr;
 						off += ctype.len - 2;
+						break;
 					}
-					break;
-				} else if ((rest >= (off_t)strlen(content_tr_enc)) &&
+					/* the field runs until the end of data:
+					 * handle like any other line */
+				} else if ((rest > (off_t)strlen(content_tr_enc)) &&
 						!strncasecmp(cr + 1, content_tr_enc, strlen(content_tr_enc))) {
 					cenc.len = getfieldlen(cr, len - off);
 					if (cenc.len) {
 						cenc.s = cr;
 						off += cenc.len - 2;
+						break;
 					}
-					break;
+					/* the field runs until the end of data:
+					 * handle like any other line */
 				}
 			}
 			/* fallthrough */
